@@ -37,6 +37,11 @@ Proof.
   repeat match goal with H : forallb _ _ = true |- _ => rewrite forallb_forall in H; specialize (H t I) end.
   repeat match goal with H : _ = true |- _ => rewrite H; clear H end. reflexivity.
 Qed.
+Lemma wfp_tuple_tail b l : wfp (PyTuple (b :: l)) = true -> wfp (PyTuple l) = true.
+Proof.
+  unfold wfp. cbn [flat_ty nofwd strkeys forallb]. intros H. split_andb.
+  repeat match goal with H : _ = true |- _ => rewrite H; clear H end. reflexivity.
+Qed.
 Lemma wfp_union_tail b l : wfp (PyUnion (b :: l)) = true -> wfp (PyUnion l) = true.
 Proof.
   unfold wfp. cbn [flat_ty nofwd strkeys forallb]. intros H. split_andb.
@@ -127,4 +132,398 @@ Proof.
   - exists SAny. split; [left; reflexivity|]. intros k b Mb Sm. rewrite (sm_any k b Mb Sm). constructor.
   - rewrite E. exists s0. split; [destruct s0; try (left; reflexivity); discriminate | exact F].
 Qed.
+
+(* ================================================================ closed validity *)
+Definition is_strlit (t : ty) : bool := match t with TStrLit _ => true | _ => false end.
+(* MM.valid with two restrictions that round-tripping needs: a property-less structure (extension point) carries no members, and a
+   string-literal property is present even when it is marked optional (an absent one comes back filled in) *)
+Inductive cvalid : ty -> json -> Prop :=
+| c_string s : cvalid (TBase BString) (JStr s)
+| c_uri s : cvalid (TBase BURI) (JStr s)
+| c_docuri s : cvalid (TBase BDocumentUri) (JStr s)
+| c_regexp s : cvalid (TBase BRegExp) (JStr s)
+| c_integer z : int32 z = true -> cvalid (TBase BInteger) (JInt z)
+| c_uinteger z : uint31 z = true -> cvalid (TBase BUInteger) (JInt z)
+| c_decimal_i z : cvalid (TBase BDecimal) (JInt z)
+| c_decimal_f n d : cvalid (TBase BDecimal) (JFlt n d)
+| c_boolean b : cvalid (TBase BBoolean) (JBool b)
+| c_null : cvalid (TBase BNull) JNull
+| c_strlit s : cvalid (TStrLit s) (JStr s)
+| c_intlit z : cvalid (TIntLit z) (JInt z)
+| c_boollit b : cvalid (TBoolLit b) (JBool b)
+| c_arr t l : (forall x, In x l -> cvalid t x) -> cvalid (TArr t) (JArr l)
+| c_map k v m : NoDup (keys m) -> (forall a b, In (a, b) m -> cvalid k (JStr a) /\ cvalid v b) -> cvalid (TMap k v) (JObj m)
+| c_tuple ts l : Forall2 cvalid ts l -> cvalid (TTuple ts) (JArr l)
+| c_or l t j : In t l -> cvalid t j -> cvalid (TOr l) j
+| c_any j : cvalid (TRef "LSPAny") j
+| c_lspobject m : cvalid (TRef "LSPObject") (JObj m)
+| c_lsparray l : cvalid (TRef "LSPArray") (JArr l)
+| c_obj_open t : obj_props mm t = Some [] -> cvalid t (JObj [])
+| c_obj t ps m : obj_props mm t = Some ps -> ps <> [] -> NoDup (map p_name ps) -> NoDup (keys m) ->
+    (forall k v, In (k, v) m -> exists p, In p ps /\ p_name p = k /\ cvalid (p_type p) v) ->
+    (forall p, In p ps -> p_opt p = false \/ is_strlit (p_type p) = true -> In (p_name p) (keys m)) -> cvalid t (JObj m)
+| c_alias n a j : find_alias mm n = Some a -> opaque_ref n = false -> cvalid (a_type a) j -> cvalid (TRef n) j
+| c_enum_member n e j : find_enum mm n = Some e ->
+    existsb (fun x => evalue_matches (snd (fst x)) j) (e_values e) = true -> cvalid (TRef n) j
+| c_enum_custom n e j : find_enum mm n = Some e -> e_custom e = true -> cvalid (TBase (e_base e)) j -> cvalid (TRef n) j.
+
+(* it is a restriction of MM.valid *)
+Lemma cvalid_valid : forall t j, cvalid t j -> valid mm t j.
+Proof.
+  fix IH 3. intros t j H. destruct H.
+  - constructor. - constructor. - constructor. - constructor. - constructor; assumption. - constructor; assumption.
+  - constructor. - constructor. - constructor. - constructor. - constructor. - constructor. - constructor.
+  - constructor. intros x I. apply IH. auto.
+  - constructor; [assumption|]. intros a b I. destruct (H0 a b I). split; apply IH; assumption.
+  - constructor. induction H; constructor; [apply IH; assumption | assumption].
+  - eapply v_or; [eassumption | apply IH; assumption].
+  - constructor. - constructor. - constructor.
+  - apply v_obj_open; [assumption | constructor].
+  - eapply v_obj; try eassumption.
+    + intros k v I. destruct (H3 k v I) as [p [Ip [En V]]]. exists p. split; [exact Ip|]. split; [exact En | apply IH; exact V].
+    + intros p Ip O. apply H4; auto.
+  - eapply v_alias; [eassumption | assumption | apply IH; assumption].
+  - eapply v_enum_member; eassumption.
+  - eapply v_enum_custom; [eassumption | assumption | apply IH; assumption].
+Qed.
+
+(* ================================================================ objects *)
+Variable plain_classes : list string.
+Hypothesis HW : W_img mm Sg alias_objects plain_classes = true.
+(* table conditions on the package (decidable; discharged on the instance) *)
+Hypothesis HF : forall c fs f, lookup_cls Sg c = Some fs -> In f fs -> wfp (ftype f) = true.
+Hypothesis HD : forall c fs f, lookup_cls Sg c = Some fs -> In f fs -> fdefault f = DefaultNone -> In PyNone (pflat (ftype f)) ->
+  must_present Sg f = false.
+
+(* what ties a property list to a class's attribute table *)
+Definition Corr (ps : list prop) (fs : list fld) : Prop :=
+  NoDup (map fwire fs) /\
+  (forall q, In q ps -> exists f k, In f fs /\ fwire f = p_name q /\ fdefault f = expected_default q /\
+     smatch k (expected_type mm q) (ftype f) = true /\ fval f = expected_vkind q /\ fvalopt f = expected_valopt q) /\
+  (forall f, In f fs -> In (fwire f) (map p_name ps)).
+
+Lemma jvalidate_ok (q : prop) (f : fld) v : cvalid (p_type q) v -> fval f = expected_vkind q -> jvalidate f v = true.
+Proof.
+  intros V E. unfold jvalidate. rewrite E. unfold expected_vkind.
+  destruct (p_type q) as [b| | | | | | | | | |]; try (destruct v, (fvalopt f); reflexivity).
+  - destruct b; inversion V; subst; try (destruct (fvalopt f); reflexivity); try discriminate.
+    all: try (match goal with H : int32 _ = true |- _ => unfold int32 in H end); try (match goal with H : uint31 _ = true |- _ => unfold uint31 in H end).
+    all: try (destruct (fvalopt f); cbn; assumption).
+  - inversion V; subst; try discriminate. cbn. rewrite String.eqb_refl. reflexivity.
+Qed.
+
+Lemma sflat_mk_union_l (x : spy) (a : spy) : In a (sflat x) -> In a (sflat (mk_union [x; SNone])).
+Proof. unfold mk_union. cbn [sflat flat_map]. intros I. apply in_or_app. left. exact I. Qed.
+
+Lemma none_member k s p : wfp p = true -> smatch k (mk_union [s; SNone]) p = true -> In PyNone (pflat p).
+Proof.
+  intros W M. destruct k as [|k]; [discriminate|]. rewrite (smatch_union k (mk_union [s; SNone]) p (eq_refl : is_sunion (mk_union [s; SNone]) || is_punion p = true)) in M. apply andb_true_iff in M. destruct M as [M _].
+  rewrite forallb_forall in M. assert (I : In SNone (sflat (mk_union [s; SNone]))) by (unfold mk_union; cbn [sflat flat_map]; apply in_or_app; right; left; reflexivity).
+  specialize (M SNone I). apply existsb_exists in M. destruct M as [b [Ib Mb]]. rewrite (pmembers_wfp p W) in Ib.
+  assert (Ok : memb_ok b = true).
+  { destruct p; cbn [pflat] in Ib; try (destruct Ib as [<-|[]]; unfold memb_ok; rewrite W; reflexivity). exact (wfp_members l b W Ib). }
+  rewrite <- (sm_none k b Ok Mb). exact Ib.
+Qed.
+
+Lemma obj_pvalid c fs ps m :
+  lookup_cls Sg c = Some fs -> Corr ps fs -> NoDup (map p_name ps) -> NoDup (keys m) ->
+  (forall k v, In (k, v) m -> exists p, In p ps /\ p_name p = k /\ Pm (p_type p) v /\ cvalid (p_type p) v) ->
+  (forall p, In p ps -> p_opt p = false \/ is_strlit (p_type p) = true -> In (p_name p) (keys m)) ->
+  pvalid (PyCls c) (JObj m).
+Proof.
+  intros L [NDf [Cq Cf]] NDp NDm Hm Hr. eapply pv_cls; [exact L | exact NDm | |].
+  - intros k v I. destruct (Hm k v I) as [q [Iq [En [PM CV]]]]. destruct (Cq q Iq) as [f [k0 [If [Ew [Ed [Et [Ev Eo]]]]]]].
+    exists f. split; [exact If|]. split; [congruence|]. split; [|exact (jvalidate_ok q f v CV Ev)].
+    destruct (PM PY_FUEL) as [a [Ia Ha]]. unfold expected_type in Et.
+    destruct (is_optional q).
+    + exact (via_member _ v a (sflat_mk_union_l _ a Ia) Ha k0 (ftype f) (HF c fs f L If) Et).
+    + exact (via_member _ v a Ia Ha k0 (ftype f) (HF c fs f L If) Et).
+  - intros f If MP. pose proof (Cf f If) as Iw. apply in_map_iff in Iw. destruct Iw as [q [Eq Iq]].
+    destruct (Cq q Iq) as [f' [k0 [If' [Ew [Ed [Et _]]]]]].
+    assert (f' = f).
+    { assert (E : fwire f' = fwire f) by congruence. clear - NDf If If' E. induction fs as [|x l IH]; [contradiction|].
+      cbn in NDf. inversion NDf as [|? ? Nx Nl]; subst. destruct If as [->|If], If' as [->|If']; auto.
+      - exfalso. apply Nx. rewrite <- E. apply in_map. exact If'.
+      - exfalso. apply Nx. rewrite E. apply in_map. exact If. }
+    subst f'. rewrite <- Eq. unfold expected_default in Ed.
+    unfold expected_type in Et.
+    destruct (p_type q) eqn:T; try (destruct (is_optional q) eqn:O;
+      [ rewrite (HD c fs f L If Ed (none_member _ _ _ (HF c fs f L If) Et)) in MP; discriminate
+      | apply Hr; [exact Iq|]; left; unfold is_optional in O; apply orb_false_iff in O; tauto ]).
+    apply Hr; [exact Iq|]. right. rewrite T. reflexivity.
+Qed.
+
+Lemma corr_struct s : In s (structures mm) -> s_name s <> "LSPObject" ->
+  exists fs, lookup_cls Sg (s_name s) = Some fs /\ Corr (flat mm (s_name s)) fs.
+Proof.
+  intros Is Hn. destruct (W_img_structures mm Sg alias_objects plain_classes HW s Is Hn) as [fs [A [ND [P X]]]].
+  exists fs. split; [exact A|]. split; [exact ND|]. split; [|exact X].
+  intros q Iq. destruct (P q Iq) as [f [If F]]. exists f, SM_FUEL. destruct F. repeat split; auto.
+Qed.
+
+Lemma corr_lit k pl c : smatch (S k) (SLitCls pl) (PyCls c) = true -> NoDup (map p_name pl) ->
+  exists fs, lookup_cls Sg c = Some fs /\ Corr pl fs.
+Proof.
+  intros M NDp. cbn [Image.smatch] in M. apply andb_true_iff in M. destruct M as [_ M].
+  unfold lookup_cls. destruct (assoc c (classes Sg)) as [fs|]; [|discriminate]. exists fs. split; [reflexivity|].
+  apply andb_true_iff in M. destruct M as [M Mq]. apply andb_true_iff in M. destruct M as [Ml Mn].
+  apply Nat.eqb_eq in Ml. apply nodupb_NoDup in Mn. rewrite forallb_forall in Mq.
+  assert (Cq : forall q, In q pl -> exists f k0, In f fs /\ fwire f = p_name q /\ fdefault f = expected_default q /\
+     smatch k0 (expected_type mm q) (ftype f) = true /\ fval f = expected_vkind q /\ fvalopt f = expected_valopt q).
+  { intros q Iq. specialize (Mq q Iq). apply existsb_exists in Mq. destruct Mq as [f [If Hf]].
+    repeat (apply andb_true_iff in Hf; destruct Hf as [Hf ?]).
+    exists f, k. repeat split; auto.
+    - apply String.eqb_eq. assumption.
+    - apply dflt_eqb_eq. assumption.
+    - apply vkind_eqb_eq. assumption.
+    - apply Bool.eqb_prop. assumption. }
+  split; [exact Mn|]. split; [exact Cq|].
+  (* nothing extra: |pl| = |fs|, names distinct, every name is a wire *)
+  assert (INC : incl (map p_name pl) (map fwire fs)).
+  { intros x Ix. apply in_map_iff in Ix. destruct Ix as [q [<- Iq]]. destruct (Cq q Iq) as [f [_ [If [Ew _]]]]. rewrite <- Ew. apply in_map. exact If. }
+  assert (INC' : incl (map fwire fs) (map p_name pl)).
+  { apply NoDup_length_incl; [exact NDp | rewrite !map_length; lia | exact INC]. }
+  intros f If. apply INC'. apply in_map. exact If.
+Qed.
+
+(* ================================================================ enumerations *)
+Lemma pv_eqb_eq a b : pv_eqb a b = true -> a = b.
+Proof. destruct a, b; cbn; try discriminate; intros H; [apply Z.eqb_eq in H | apply String.eqb_eq in H]; congruence. Qed.
+Lemma pvl_eqb_eq a : forall b, pvl_eqb a b = true -> a = b.
+Proof.
+  induction a as [|x a IH]; intros [|y b] H; try discriminate; [reflexivity|].
+  cbn in H. apply andb_true_iff in H. destruct H as [H1 H2]. rewrite (pv_eqb_eq _ _ H1), (IH b H2). reflexivity.
+Qed.
+
+Lemma find_first_prim (l : list evalue) (v : evalue) (j : json) : In v l -> evalue_matches v j = true ->
+  exists m, find (pv_eqb_prim (embed j)) (map evalue_pv l) = Some m /\ m = embed j.
+Proof.
+  intros I E.
+  assert (EJ : evalue_pv v = embed j).
+  { destruct v, j; cbn in E; try discriminate; cbn; [apply String.eqb_eq in E | apply Z.eqb_eq in E]; congruence. }
+  assert (SH : (exists s, j = JStr s) \/ (exists z, j = JInt z)) by (destruct v, j; cbn in E; try discriminate; eauto).
+  induction l as [|x l IH]; [contradiction|]. cbn [map find].
+  destruct (pv_eqb_prim (embed j) (evalue_pv x)) eqn:Q.
+  - exists (evalue_pv x). split; [reflexivity|].
+    destruct SH as [[s ->]|[z ->]]; destruct x; cbn in Q |- *; try discriminate.
+    + apply String.eqb_eq in Q. congruence.
+    + apply Z.eqb_eq in Q. f_equal. lia.
+  - destruct I as [->|I]; [|exact (IH I)].
+    exfalso. rewrite EJ in Q. destruct SH as [[s ->]|[z ->]]; cbn in Q.
+    + rewrite String.eqb_refl in Q. discriminate.
+    + rewrite Z.eqb_refl in Q. discriminate.
+Qed.
+
+Lemma enum_member_pvalid n e j : find_enum mm n = Some e ->
+  existsb (fun x => evalue_matches (snd (fst x)) j) (e_values e) = true -> pvalid (PyEnum n) j.
+Proof.
+  intros F X. apply find_some in F. destruct F as [Ie En]. apply String.eqb_eq in En.
+  pose proof (W_img_enums mm Sg alias_objects plain_classes HW e Ie) as EO. unfold enum_ok in EO. rewrite En in EO.
+  destruct (find (fun d => String.eqb (ename d) n) (enums Sg)) as [d|] eqn:FD; [|discriminate].
+  apply andb_true_iff in EO. destruct EO as [EV _]. apply pvl_eqb_eq in EV.
+  apply existsb_exists in X. destruct X as [x [Ix Mx]].
+  destruct (find_first_prim (map (fun x => snd (fst x)) (e_values e)) (snd (fst x)) j) as [m [Fm Em]];
+    [apply in_map_iff; exists x; auto | exact Mx |].
+  eapply pv_enum; [exact FD | destruct (snd (fst x)), j; cbn in Mx; try discriminate; reflexivity |].
+  exists m. split.
+  - rewrite EV. rewrite map_map in Fm. exact Fm.
+  - rewrite Em. cbn [Denote.den]. apply den_embed.
+Qed.
+
+(* ================================================================ the induction *)
+(* name discipline of the metamodel (decidable; discharged on the instance by names_ok below) *)
+Hypothesis HN_struct : forall n s, find_struct mm n = Some s -> String.eqb n "LSPAny" = false.
+Hypothesis HN_enum : forall n e, find_enum mm n = Some e ->
+  find_struct mm n = None /\ String.eqb n "LSPAny" = false /\ String.eqb n "LSPObject" = false.
+Hypothesis HN_alias : forall n a, find_alias mm n = Some a -> opaque_ref n = false -> find_struct mm n = None /\ find_enum mm n = None.
+Hypothesis HA : find_struct mm "LSPArray" = None /\ find_enum mm "LSPArray" = None /\
+  exists a0, find_alias mm "LSPArray" = Some a0 /\ a_type a0 = TArr (TRef "LSPAny").
+
+Lemma Pm_at t j : (forall n, exists s0, py_of (S n) t = s0 /\ is_sunion s0 = false /\
+    forall k b, memb_ok b = true -> smatch k s0 b = true -> pvalid b j) -> Pm t j.
+Proof.
+  intros F [|n].
+  - exists SAny. split; [left; reflexivity|]. intros k b Mb Sm. rewrite (sm_any k b Mb Sm). constructor.
+  - destruct (F n) as [s0 [E [U G]]]. rewrite E. exists s0. split; [destruct s0; try (left; reflexivity); discriminate | exact G].
+Qed.
+
+Lemma memb_wfp b : memb_ok b = true -> wfp b = true.
+Proof. unfold memb_ok. intros H. apply andb_true_iff in H. tauto. Qed.
+
+Lemma Pm_arr t l : (forall x, In x l -> Qm t x) -> Pm (TArr t) (JArr l).
+Proof.
+  intros H. apply Pm_at. intros n. exists (SSeq (py_of n t)). split; [reflexivity|]. split; [reflexivity|].
+  intros k b Mb Sm. destruct (sm_seq _ k b Mb Sm) as [b' [k' [-> Sm']]]. constructor. intros x Ix.
+  exact (H x Ix n k' b' (wfp_seq b' (memb_wfp _ Mb)) Sm').
+Qed.
+Lemma Pm_any j : Pm (TRef "LSPAny") j.
+Proof.
+  intros [|n].
+  - exists SAny. split; [left; reflexivity|]. intros k b Mb Sm. rewrite (sm_any k b Mb Sm). constructor.
+  - exists SAny. split; [cbn; auto|]. intros k b Mb Sm. rewrite (sm_any k b Mb Sm). constructor.
+Qed.
+
+Lemma py_of_struct n name s : find_struct mm name = Some s -> String.eqb name "LSPObject" = false -> py_of (S n) (TRef name) = SCls name.
+Proof. intros F O. cbn [Image.py_of]. rewrite (HN_struct name s F), O, F. reflexivity. Qed.
+Lemma py_of_enum n name e : find_enum mm name = Some e ->
+  py_of (S n) (TRef name) = if enum_open e then SUnion [SEnum name; py_base (e_base e)] else SEnum name.
+Proof. intros F. destruct (HN_enum name e F) as [A [B C]]. cbn [Image.py_of]. rewrite B, C, A, F. reflexivity. Qed.
+Lemma py_of_alias n name a : find_alias mm name = Some a -> opaque_ref name = false -> py_of (S n) (TRef name) = py_of n (a_type a).
+Proof.
+  intros F O. destruct (HN_alias name a F O) as [A B]. unfold opaque_ref in O. apply orb_false_iff in O. destruct O as [O _].
+  apply orb_false_iff in O. destruct O as [O1 O2]. cbn [Image.py_of]. rewrite O1, O2, A, B, F. reflexivity.
+Qed.
+
+Lemma sm_litcls pl : forall k b, memb_ok b = true -> smatch k (SLitCls pl) b = true -> exists c k', b = PyCls c /\ smatch (S k') (SLitCls pl) (PyCls c) = true.
+Proof. intros k b M H. destruct k as [|k]; [discriminate|]. destruct b; cbn in M; try discriminate; try (cbn in H; discriminate). eauto. Qed.
+
+(* object-like types *)
+Lemma Pm_obj t ps m : obj_props mm t = Some ps -> NoDup (map p_name ps) -> NoDup (keys m) ->
+  (forall k v, In (k, v) m -> exists p, In p ps /\ p_name p = k /\ Pm (p_type p) v /\ cvalid (p_type p) v) ->
+  (forall p, In p ps -> p_opt p = false \/ is_strlit (p_type p) = true -> In (p_name p) (keys m)) ->
+  Pm t (JObj m).
+Proof.
+  intros OP NDp NDm Hm Hr. destruct t as [|name| | | | | |lp| | |]; try discriminate OP.
+  - (* structure *) cbn [obj_props] in OP. destruct (opaque_ref name) eqn:O; [discriminate|].
+    destruct (find_struct mm name) as [s|] eqn:F; [|discriminate]. inversion OP; subst ps.
+    assert (O2 : String.eqb name "LSPObject" = false).
+    { unfold opaque_ref in O. apply orb_false_iff in O. destruct O as [O _]. apply orb_false_iff in O. tauto. }
+    apply Pm_at. intros n. exists (SCls name). split; [exact (py_of_struct n name s F O2)|]. split; [reflexivity|].
+    intros k b Mb Sm. rewrite (sm_cls name k b Mb Sm).
+    pose proof (find_some _ _ F) as [Is En]. apply String.eqb_eq in En.
+    destruct (corr_struct s Is) as [fs [L C]]; [rewrite En; intro E; rewrite E in O2; discriminate|]. rewrite En in L, C.
+    exact (obj_pvalid name fs (flat mm name) m L C NDp NDm Hm Hr).
+  - (* and-type *) cbn [obj_props] in OP. inversion OP; subst ps.
+    apply Pm_at. intros n. exists (SLitCls (and_props mm l)). split; [reflexivity|]. split; [reflexivity|].
+    intros k b Mb Sm. destruct (sm_litcls _ k b Mb Sm) as [c [k' [-> Sm']]].
+    destruct (corr_lit k' _ c Sm' NDp) as [fs [L C]]. exact (obj_pvalid c fs _ m L C NDp NDm Hm Hr).
+  - (* literal *) cbn [obj_props] in OP. inversion OP; subst ps. destruct lp as [|x r].
+    + apply Pm_at. intros n. exists SAny. split; [reflexivity|]. split; [reflexivity|].
+      intros k b Mb Sm. rewrite (sm_any k b Mb Sm). constructor.
+    + apply Pm_at. intros n. exists (SLitCls (props_of_lit (x :: r))). split; [reflexivity|]. split; [reflexivity|].
+      intros k b Mb Sm. destruct (sm_litcls _ k b Mb Sm) as [c [k' [-> Sm']]].
+      destruct (corr_lit k' _ c Sm' NDp) as [fs [L C]]. exact (obj_pvalid c fs _ m L C NDp NDm Hm Hr).
+Qed.
+
+Ltac base_case s0 inv ctor :=
+  apply (Pm_simple _ _ s0); [intros; reflexivity | reflexivity | let k := fresh in let b := fresh in let Mb := fresh in let Sm := fresh in
+    intros k b Mb Sm; rewrite (inv k b Mb Sm); ctor].
+
+Theorem cvalid_Pm : forall t j, cvalid t j -> Pm t j.
+Proof.
+  fix IH 3. intros t j H. destruct H.
+  - base_case SStr sm_str ltac:(constructor).
+  - base_case SStr sm_str ltac:(constructor).
+  - base_case SStr sm_str ltac:(constructor).
+  - base_case SStr sm_str ltac:(constructor).
+  - base_case SInt sm_int ltac:(constructor).
+  - base_case SInt sm_int ltac:(constructor).
+  - base_case SFloat sm_float ltac:(apply pv_float_i).
+  - base_case SFloat sm_float ltac:(apply pv_float_f).
+  - base_case SBool sm_bool ltac:(constructor).
+  - base_case SNone sm_none ltac:(constructor).
+  - base_case SStr sm_str ltac:(constructor).
+  - base_case SInt sm_int ltac:(constructor).
+  - base_case SBool sm_bool ltac:(constructor).
+  - (* array *) apply Pm_arr. intros x Ix. apply Pm_Qm. apply IH. auto.
+  - (* map *) apply Pm_at. intros n. exists (SDict (py_of n k) (py_of n v)). split; [reflexivity|]. split; [reflexivity|].
+    intros k0 b Mb Sm. destruct (sm_dict _ _ k0 b Mb Sm) as [kk [vv [k' [-> Sm']]]].
+    destruct (wfp_dict kk vv (memb_wfp _ Mb)) as [-> Wv]. constructor; [assumption | | reflexivity].
+    intros a b I. destruct (H0 a b I) as [_ Vb]. exact (Pm_Qm v b (IH v b Vb) n k' vv Wv Sm').
+  - (* tuple *) apply Pm_at. intros n. exists (STuple (map (py_of n) ts)). split; [reflexivity|]. split; [reflexivity|].
+    intros k0 b Mb Sm. destruct (sm_tuple _ k0 b Mb Sm) as [m' [k' [-> F]]]. constructor.
+    pose proof (memb_wfp _ Mb) as W. clear Sm Mb.
+    revert m' F W. induction H as [|t x ts l V R IHR]; intros m' F W; cbn [map] in F; inversion F; subst; constructor.
+    + apply (Pm_Qm t x (IH t x V) n k'); [apply (wfp_tuple _ _ W); left; reflexivity | assumption].
+    + apply IHR; [assumption|]. exact (wfp_tuple_tail _ _ W).
+  - (* or *) intros [|n].
+    + exists SAny. split; [left; reflexivity|]. intros k b Mb Sm. rewrite (sm_any k b Mb Sm). constructor.
+    + destruct (IH t j H0 n) as [a [Ia Ha]]. exists a. split; [|exact Ha].
+      cbn [Image.py_of]. unfold mk_union. cbn [sflat]. apply in_flat_map. exists (py_of n t). split; [apply in_map; assumption | exact Ia].
+  - exact (Pm_any j).
+  - (* LSPObject *) apply (Pm_simple _ _ (SOpaque "LSPObject")); [intros; reflexivity | reflexivity|].
+    intros k b Mb Sm. rewrite (sm_opaque _ k b Mb Sm). constructor.
+  - (* LSPArray *) destruct HA as [A1 [A2 [a0 [A3 A4]]]]. intros [|n].
+    + exists SAny. split; [left; reflexivity|]. intros k b Mb Sm. rewrite (sm_any k b Mb Sm). constructor.
+    + assert (E : py_of (S n) (TRef "LSPArray") = py_of n (TArr (TRef "LSPAny"))).
+      { cbn [Image.py_of]. cbn [String.eqb Ascii.eqb Bool.eqb]. rewrite A1, A2, A3, A4. reflexivity. }
+      rewrite E. apply (Pm_arr (TRef "LSPAny") l). intros x _. apply Pm_Qm. apply Pm_any.
+  - (* property-less object *) apply (Pm_obj t [] []); [assumption | constructor | constructor | intros k v [] | intros p []].
+  - (* object *) apply (Pm_obj t ps m); try assumption.
+    intros k v I. destruct (H3 k v I) as [p [Ip [En V]]]. exists p. split; [exact Ip|]. split; [exact En|]. split; [apply IH; exact V | exact V].
+  - (* alias *) intros [|n'].
+    + exists SAny. split; [left; reflexivity|]. intros k b Mb Sm. rewrite (sm_any k b Mb Sm). constructor.
+    + rewrite (py_of_alias n' n a H H0). exact (IH (a_type a) j H1 n').
+  - (* enum member *) intros [|n'].
+    + exists SAny. split; [left; reflexivity|]. intros k b Mb Sm. rewrite (sm_any k b Mb Sm). constructor.
+    + rewrite (py_of_enum n' n e H). exists (SEnum n). split; [destruct (enum_open e); cbn; auto|].
+      intros k b Mb Sm. rewrite (sm_enum n k b Mb Sm). exact (enum_member_pvalid n e j H H0).
+  - (* enum custom value *) intros [|n'].
+    + exists SAny. split; [left; reflexivity|]. intros k b Mb Sm. rewrite (sm_any k b Mb Sm). constructor.
+    + rewrite (py_of_enum n' n e H). unfold enum_open. rewrite H0. cbn [orb].
+      destruct (IH _ j H1 1) as [a [Ia Ha]].
+      destruct (e_base e); cbn in Ia; destruct Ia as [<-|[]]; (eexists; split; [cbn; right; left; reflexivity | exact Ha]).
+Qed.
+
+(* THE LINK: a metamodel-valid (closed) value of t is Python-valid at every annotation that is the image of t *)
+Theorem cvalid_pvalid t j p k n : cvalid t j -> wfp p = true -> smatch k (py_of n t) p = true -> pvalid p j.
+Proof. intros V W M. exact (Pm_Qm t j (cvalid_Pm t j V) n k p W M). Qed.
 End Link.
+
+(* ================================================================ the side conditions as boolean checkers *)
+Section Checkers.
+Variable mm : MM.
+Variable Sg : sigma.
+
+Definition none {A} (o : option A) : bool := match o with None => true | Some _ => false end.
+Definition names_ok : bool :=
+  forallb (fun s => negb (String.eqb (s_name s) "LSPAny")) (structures mm)
+  && forallb (fun e => none (find_struct mm (e_name e)) && negb (String.eqb (e_name e) "LSPAny") && negb (String.eqb (e_name e) "LSPObject")) (enumerations mm)
+  && forallb (fun a => opaque_ref (a_name a) || (none (find_struct mm (a_name a)) && none (find_enum mm (a_name a)))) (aliases mm)
+  && none (find_struct mm "LSPArray") && none (find_enum mm "LSPArray")
+  && match find_alias mm "LSPArray" with Some a0 => ty_eqb (a_type a0) (TArr (TRef "LSPAny")) | None => false end.
+
+Lemma none_eq {A} (o : option A) : none o = true -> o = None. Proof. destruct o; [discriminate | reflexivity]. Qed.
+
+Lemma names_ok_sound : names_ok = true ->
+  (forall n s, find_struct mm n = Some s -> String.eqb n "LSPAny" = false) /\
+  (forall n e, find_enum mm n = Some e -> find_struct mm n = None /\ String.eqb n "LSPAny" = false /\ String.eqb n "LSPObject" = false) /\
+  (forall n a, find_alias mm n = Some a -> opaque_ref n = false -> find_struct mm n = None /\ find_enum mm n = None) /\
+  (find_struct mm "LSPArray" = None /\ find_enum mm "LSPArray" = None /\
+   exists a0, find_alias mm "LSPArray" = Some a0 /\ a_type a0 = TArr (TRef "LSPAny")).
+Proof.
+  unfold names_ok. intros H. split_andb.
+  repeat match goal with H : forallb _ _ = true |- _ => rewrite forallb_forall in H end.
+  split; [|split; [|split]].
+  - intros n s F. apply find_some in F. destruct F as [I E]. apply String.eqb_eq in E. subst n.
+    match goal with H : forall x, In x (structures mm) -> _ |- _ => specialize (H s I); apply negb_true_iff in H; exact H end.
+  - intros n e F. apply find_some in F. destruct F as [I E]. apply String.eqb_eq in E. subst n.
+    match goal with H : forall x, In x (enumerations mm) -> _ |- _ => specialize (H e I) end. split_andb.
+    repeat match goal with H : negb _ = true |- _ => apply negb_true_iff in H end. auto using none_eq.
+  - intros n a F O. apply find_some in F. destruct F as [I E]. apply String.eqb_eq in E. subst n.
+    match goal with H : forall x, In x (aliases mm) -> _ |- _ => specialize (H a I) end. rewrite O in *. cbn [orb] in *. split_andb. auto using none_eq.
+  - split; [apply none_eq; assumption|]. split; [apply none_eq; assumption|].
+    destruct (find_alias mm "LSPArray") as [a0|]; [|discriminate]. exists a0. split; [reflexivity|].
+    match goal with H : ty_eqb _ _ = true |- _ => revert H end. generalize (a_type a0). intros t E.
+    destruct t; try discriminate. cbn in E. destruct t; try discriminate. cbn in E. apply String.eqb_eq in E. subst. reflexivity.
+Qed.
+
+Definition fields_ok2 : bool :=
+  forallb (fun c => forallb (fun f => wfp (ftype f) && match fdefault f with
+                                                         | DefaultNone => negb (existsb is_none (pflat (ftype f))) || negb (must_present Sg f)
+                                                         | _ => true end) (snd c)) (classes Sg).
+Lemma fields_ok2_sound : fields_ok2 = true ->
+  (forall c fs f, lookup_cls Sg c = Some fs -> In f fs -> wfp (ftype f) = true) /\
+  (forall c fs f, lookup_cls Sg c = Some fs -> In f fs -> fdefault f = DefaultNone -> In PyNone (pflat (ftype f)) -> must_present Sg f = false).
+Proof.
+  unfold fields_ok2. intros H. rewrite forallb_forall in H.
+  assert (G : forall c fs f, lookup_cls Sg c = Some fs -> In f fs ->
+              wfp (ftype f) && match fdefault f with DefaultNone => negb (existsb is_none (pflat (ftype f))) || negb (must_present Sg f) | _ => true end = true).
+  { intros c fs f L If. specialize (H (c, fs) (lookup_in Sg c fs L)). cbn [snd] in H. rewrite forallb_forall in H. exact (H f If). }
+  split.
+  - intros c fs f L If. specialize (G c fs f L If). apply andb_true_iff in G. tauto.
+  - intros c fs f L If D IN. specialize (G c fs f L If). apply andb_true_iff in G. destruct G as [_ G]. rewrite D in G.
+    apply orb_true_iff in G. destruct G as [G|G]; [|apply negb_true_iff in G; exact G].
+    apply negb_true_iff in G. assert (X : existsb is_none (pflat (ftype f)) = true) by (apply existsb_exists; exists PyNone; auto). congruence.
+Qed.
+End Checkers.
